@@ -32,7 +32,7 @@ ASSUMPTIONS = ["per-target expectation = the library's own root merge of indepen
 REACH = [("yamlpath/merger/merger.py", "_insert_dict,_insert_list,_insert_set,_insert_scalar,_get_merge_target_nodes,merge_with,_replace_merge_target", "Merger._insert_* / _get_merge_target_nodes / merge_with"),
          ("yamlpath/merger/mergerconfig.py", "get_insertion_point", "MergerConfig.get_insertion_point")]
 SIZES = {"quick": 30000, "thorough": 800000}
-REQUIRED_COUNTERS = ["retyped_equal_rhs_cases", "cli_uncreatable_cases", "traversal_mergeat_cases", "existing_single", "existing_multiple", "created", "uncreatable"]
+REQUIRED_COUNTERS = ["target_sharing_checked", "merge_key_target_cases", "retyped_equal_rhs_cases", "cli_uncreatable_cases", "traversal_mergeat_cases", "existing_single", "existing_multiple", "created", "uncreatable"]
 SAMPLE = [("deep", "all", "all", "unique"), ("deep", "unique", "deep", "unique"), ("right", "right", "right", "right"),
           ("left", "left", "left", "left"), ("deep", "right", "unique", "left"), ("right", "all", "deep", "unique")]
 
@@ -160,6 +160,34 @@ def run_case(ctx, ltext, rtext, segs, kind, combo):
     if raised is not None:
         ctx.violation("merge-error-for-possible-merge/%s" % kind, {"case": case, "summary": str(raised)[:200]})
         return
+    if kind == "multiple" and len(locs) >= 2 and yp.is_container(R):
+        # no container object may be held by two different targets (unless it is anchored, i.e. one node by definition):
+        # content adopted by one target would change with the merge into the next
+        def containers(n, acc):
+            if yp.is_container(n) and not yp.is_set(n):
+                if yp.anchor_of(n) is None:
+                    acc[id(n)] = n
+                for c in (n.values() if isinstance(n, dict) else n):
+                    containers(c, acc)
+            return acc
+        seen = {}
+        ctx.counters["target_sharing_checked"] = ctx.counters.get("target_sharing_checked", 0) + 1
+        for tl in locs:
+            node = m.data
+            try:
+                for i in tl:
+                    node = list(node.values())[i] if isinstance(node, dict) else node[i]
+            except Exception:
+                break
+            mine = containers(node, {})
+            mine.pop(id(node), None)
+            shared = [k for k in mine if k in seen]
+            if shared:
+                ctx.violation("targets-share-nodes/%s" % kind, {"case": case, "summary": "targets %r and %r hold the same %s object ; result %r" % (
+                    seen[shared[0]], tl, type(mine[shared[0]]).__name__, yp.dump(m.data)[:250])})
+                return
+            for k in mine:
+                seen[k] = tl
     actual = E.image(m.data)
     if E.strip_anchors(actual) != E.strip_anchors(expected):
         df = E.diff(E.strip_anchors(expected), E.strip_anchors(actual))
@@ -221,6 +249,42 @@ def dotted_keys(rng, t, depth=0):
     return ("map", items)
 
 
+def merge_key_target_case(ctx, rng):
+    """The target is a mapping that inherits keys through `<<`: merging into it may override what it inherits, but the
+    anchored source mapping (which lies outside the target) must stay as it was."""
+    ltext = gd.gen_merge_doc(rng)
+    try:
+        L = yp.load(ltext)
+    except yp.LoadError:
+        return
+    inheritors = [k for k, v in L.items() if isinstance(v, dict) and getattr(v, "merge", None)]
+    if not inheritors:
+        return
+    tgt = rng.choice(inheritors)
+    inherited = [k for k in L[tgt].keys() if k not in [kk for kk, _ in yp.own_items(L[tgt])]]
+    keys = rng.sample(gd.MERGE_KEYS + ["extra"], rng.randrange(1, 4)) + ([rng.choice(inherited)] if inherited else [])
+    rtext = "{%s}" % ", ".join("%s: %s" % (k, rng.choice(["{b: 2}", "[y]", "{q: 7, z: 1}", "[1, 2, 3]", "5", "x"])) for k in dict.fromkeys(keys))
+    combo = rng.choice(SAMPLE)
+    case = {"lhs": ltext, "rhs": rtext, "mergeat": "/" + tgt, "policies": combo, "kind": "merge-key-target"}
+    before = {k: E.image(v) for k, v in L.items() if k != tgt}
+    ctx.evaluations += 1
+    ctx.counters["merge_key_target_cases"] = ctx.counters.get("merge_key_target_cases", 0) + 1
+    ctx.mark_nontrivial([ltext, rtext, tgt, combo])
+    m = Merger(LOG, L, MergerConfig(LOG, ns(combo, "/" + tgt)))
+    try:
+        m.merge_with(yp.load(rtext))
+    except (MergeException, YAMLPathException):
+        pass
+    except Exception as e:
+        ctx.violation("crash/%s@%s/merge-key-target" % (type(e).__name__, C05.where(e)), {"case": case, "summary": repr(e)[:150]})
+        return
+    for k, img in before.items():
+        if k not in m.data or E.image(m.data[k]) != img:
+            ctx.violation("differs/merge-key-target/outside-target", {"case": case, "summary": "%r changed: %r" % (
+                k, E.diff(img, E.image(m.data[k]))[:3] if k in m.data else "removed")})
+            return
+
+
 def cli_uncreatable_case(ctx, rng, workdir):
     """yaml-merge --mergeat on a path that one left-hand document can neither match nor create: the run must fail and
     must not write anything out - also when OTHER left-hand documents of a multi-document file would have merged."""
@@ -267,6 +331,9 @@ def run_shard(ctx):
     want = SIZES[ctx.tier] // ctx.nshards
     n = 0
     while ctx.evaluations < want:
+        if rng.random() < 0.04:
+            merge_key_target_case(ctx, rng)
+            continue
         lt = C05.gen_tree(rng, 0, "map")
         if len(lt[1]) < 2:
             continue
